@@ -47,6 +47,7 @@ type Spec struct {
 	AllowPkgs   []string          `json:"allow_pkgs"`
 	ExtraPackages []string        `json:"extra_packages"`
 	Replace     map[string]string `json:"replace"` // real function -> harness function
+	ReplaceFor  map[string]map[string]string `json:"replace_for"` // entry -> (real function -> harness function)
 	Explanation string            `json:"explanation"`
 	Bounds      map[string]string `json:"bounds"`
 	Outside     []string          `json:"outside"`
@@ -316,6 +317,19 @@ func cmdRun(args []string) int {
 		if fn == nil {
 			problems = append(problems, "entry not found: "+en)
 			continue
+		}
+		// replacements that apply to this entry only
+		eng.replace = map[string]*ssa.Function{}
+		for real, h := range spec.Replace {
+			eng.replace[real] = pkg.Func(h)
+		}
+		for real, h := range spec.ReplaceFor[en] {
+			hf := fn.Pkg.Func(h)
+			if hf == nil {
+				problems = append(problems, "replacement not found: "+h)
+				continue
+			}
+			eng.replace[real] = hf
 		}
 		var deadline time.Time
 		if budget > 0 {
